@@ -1,6 +1,6 @@
 (* Properties_C26.v — C26: Content-Length is accepted only when unambiguous.
    Statements only; proofs live in ClenProofs.v.  Vocabulary (ClenProofs.v, specification part):
-     is_token relaxed item v  item = OWS 1*DIGIT OWS (the mode's white space), its number is v, v < 2^63
+     is_token relaxed item v  item = OWS 1*DIGIT OWS (OWS = SP / HTAB in both modes), its number is v, v < 2^63
      uses st v                the interpreter ends with sawGood, !sawBad and value = v
      occurrences f            a field value split at commas, trimmed, empty elements ignored
      cl_values es             the Content-Length field values of a header, in order
@@ -10,7 +10,7 @@ Require Import SquidV.Bytes SquidV.ClenModel SquidV.ClenProofs.
 Require Import SquidV.gen.CharSets_gen.
 Local Open Scope N_scope.
 
-(* the regenerated Whitespace/Delimiter/DIGIT tables are the sets the specification speaks about *)
+(* the regenerated DIGIT / WSP tables are the sets the specification speaks about (OWS = SP / HTAB) *)
 Theorem C26_tables_are_the_ows_sets : forall relaxed c,
   cs_DIGIT c = c_isdigit c /\ cl_ws relaxed c = ows_before relaxed c /\ cl_delim relaxed c = ows_after relaxed c.
 Proof. exact tables_spec. Qed.
@@ -114,8 +114,8 @@ Theorem C26_sanitised_value_round_trips : forall v, (0 <= v < two63)%Z ->
 Proof. exact parse_int64_to_a. Qed.
 
 (* non-vacuity *)
-Example C26_token_example : is_token true [32; 52; 50; 11] 42.
-Proof. exists [32], [52; 50], [11]. repeat split; try reflexivity; discriminate. Qed.
+Example C26_token_example : is_token true [32; 52; 50; 9] 42.
+Proof. exists [32], [52; 50], [9]. repeat split; try reflexivity; discriminate. Qed.
 Example C26_strict_example : uses (snd (check_fields false cl_init [[52; 50]])) 42.
 Proof. vm_compute. repeat split. Qed.
 Example C26_relaxed_duplicates_example : uses (snd (check_fields true cl_init [[52; 50]; [32; 52; 50]])) 42.
@@ -129,6 +129,12 @@ Example C26_clean_list_example :
   occurrences [53; 44; 32; 53; 44; 11; 44; 9; 53] = [[53]; [53]; [53]] /\
   uses (snd (check_fields true cl_init [[53; 44; 32; 53; 44; 11; 44; 9; 53]; [53]])) 5.
 Proof. vm_compute. repeat split; intros; reflexivity. Qed.
+(* VT / FF / CR around the digits are no longer tolerated, in any mode *)
+Example C26_vt_around_digits_rejected :
+  cv_parse true [11; 53] = None /\ cv_parse true [53; 12] = None /\ cv_parse false [53; 13] = None /\
+  option_map content_length (hdr_parse true false false
+    [67;111;110;116;101;110;116;45;76;101;110;103;116;104;58;32;53;11;13;10;13;10]) = Some (-1)%Z.
+Proof. vm_compute. repeat split. Qed.
 Example C26_header_example :
   option_map content_length (hdr_parse true false false
     [67;111;110;116;101;110;116;45;76;101;110;103;116;104;58;32;53;44;32;53;13;10;13;10]) = Some 5%Z.
